@@ -71,18 +71,27 @@ def run(name, checks, inplace=False):
     try:
         r = sh("git -C %s apply %s/patch.diff" % (wt, d))
         assert r.returncode == 0, "patch does not apply to the current /repo HEAD (rebase it by hand): " + r.stderr
+        # an isolated copy of /verif (with its warm .lake): Generated/Tables.lean, the driver binary and the
+        # evidence files of the copy move, /verif's own do not - so runs can go in parallel with each other
+        # and with checks on /repo
+        vroot = ROOT
+        if not inplace:
+            vroot = "/tmp/wt/sv_%s_%d" % (name, os.getpid())
+            r = sh("rsync -a --exclude .git --exclude replays %s/ %s/" % (ROOT, vroot))
+            assert r.returncode == 0, r.stderr
         for c in checks:
             t = time.time()
-            p = sh("cd %s && MODELX_REPO=%s ./check %s --tier quick" % (ROOT, wt, c))
+            p = sh("cd %s && MODELX_REPO=%s ./check %s --tier %s" % (vroot, wt, c, os.environ.get("SEEDED_TIER", "quick")))
             lines = [l for l in p.stdout.split("\n") if l.startswith(("VIOLATION", "KNOWN", "INFRA"))]
             out[c] = {"rc": p.returncode, "lines": lines[:4], "s": round(time.time() - t, 1)}
             print(name, c, out[c])
     finally:
         if inplace:
             sh("git -C /repo checkout -- .")
+            sh("cd %s && git checkout -- evidence" % ROOT)
         else:
             sh("git -C /repo worktree remove --force %s" % wt)
-        sh("cd %s && git checkout -- evidence" % ROOT)
+            shutil.rmtree(vroot, ignore_errors=True)
     res_path = os.path.join(d, "result.json")
     prev = json.load(open(res_path)) if os.path.exists(res_path) else {}
     prev.update(out)
